@@ -31,6 +31,11 @@ pub const fn panic_unlimited_precision() -> ! {
     panic!("precision cannot be 0 (unlimited) for this operation!")
 }
 
+/// Panics when taking the logarithm of zero or a negative number
+pub const fn panic_log_nonpositive() -> ! {
+    panic!("logarithm is not defined for zero and negative numbers!")
+}
+
 /// Panics when the base of the power operation is negative
 pub const fn panic_power_negative_base() -> ! {
     panic!("powering on negative bases could result in complex number!")
